@@ -306,6 +306,7 @@ def run_property(prop, cfg, tier, known, only=None):
         say(f"  [{'bincode_bridge':>22}] facts={len(bsample['queries'])}")
 
         dev, n = native_scenarios(binp)
+        dev = [d for d in dev if not d[0].startswith("typed-")]  # the typed scenarios belong to other properties' units
         res["validated_inputs"] = n
         res["notes"].append(f"native bridge scenarios: {n} (malformed events, malformed / misdirected responses, the scripted programs through the JSON bridge vs direct inspection): {len(dev)} deviations")
         if n < 8:
